@@ -44,7 +44,8 @@ Lemma insert_lawful k v w :
                   r = option_map snd (snd (l_insert ck (elems (self w)) k v false)) /\
                   logged w w' (match snd (l_insert ck (elems (self w)) k v false) with
                                | Some (k', _) => ev_drops (idK E k') | None => [] end))
-     (fun w' => stable w w' /\ find_idx ck (ck k) (elems (self w)) = None /\ len (self w) = cap (self w)) w.
+     (fun w' => self w' = self w /\ logged w w' (ev_drops (idK E k ++ idV E v)) /\
+                find_idx ck (ck k) (elems (self w)) = None /\ len (self w) = cap (self w)) w.
 Proof.
   intros Hw. unfold insert. apply wp_bind.
   eapply wp_mono; [apply (insert_ii_lawful E debug ck cq HL k v false w Hw) | | intros w' H; exact H]; cbn beta.
@@ -62,7 +63,8 @@ Lemma insert_key_value_lawful k v w :
      (fun r w' => WF (self w') /\ cap (self w') = cap (self w) /\ log w' = log w /\
                   elems (self w') = fst (fst (l_insert ck (elems (self w)) k v true)) /\
                   r = snd (l_insert ck (elems (self w)) k v true))
-     (fun w' => stable w w' /\ find_idx ck (ck k) (elems (self w)) = None /\ len (self w) = cap (self w)) w.
+     (fun w' => self w' = self w /\ logged w w' (ev_drops (idK E k ++ idV E v)) /\
+                find_idx ck (ck k) (elems (self w)) = None /\ len (self w) = cap (self w)) w.
 Proof.
   intros Hw. unfold insert_key_value. apply wp_bind.
   eapply wp_mono; [apply (insert_ii_lawful E debug ck cq HL k v true w Hw) | | intros w' H; exact H]; cbn beta.
@@ -84,7 +86,7 @@ Lemma insert_ii_for_full_lawful k v w :
         end)
      (fun _ => False) w.
 Proof.
-  intros Hw. unfold insert_ii_for_full. apply wp_bind.
+  intros Hw. unfold insert_ii_for_full. apply wp_bind. apply wp_on_unwind_nopanic.
   eapply wp_mono; [apply (scan_lawful ck (test_k E k) (ck k)); [apply (cls_test_k E ck cq HL) | exact Hw] | | intros w' []]; cbn beta.
   intros r w1 [[Hs1 Hl1] ->].
   destruct (find_idx ck (ck k) (elems (self w))) as [i|] eqn:Hf.
@@ -120,7 +122,7 @@ Proof.
   destruct (Nat.ltb_spec (len (self w)) (cap (self w))) as [Hlt|Hge].
   - apply wp_bind.
     eapply wp_mono; [apply (insert_ii_lawful E debug ck cq HL k v false w Hw) | | ]; cbn beta.
-    2:{ intros w' (_ & _ & Hfull). lia. }
+    2:{ intros w' (_ & _ & _ & Hfull). lia. }
     intros [i e] w1 (Hw1 & Hc1 & Hl1 & Hins & _). cbn [fst snd] in Hins.
     apply wp_bind. eapply wp_mono; [apply keep_value_lawful | | intros ? []]; cbn beta.
     intros r w2 (Hs2 & Hr & Hlg). apply wp_ret. rewrite Hs2.
